@@ -429,10 +429,10 @@ theorem clz_bounds' (n : W) : (n.toNat + 1) * 2^(clz n) ≤ 2^64 := by
   have e2 : 2^L * 2^(64-L) = 2^64 := by rw [← Nat.pow_add]; congr 1; omega
   rw [← e2]; exact Nat.mul_le_mul_right _ hup
 
-/-- **the estimate branch of `divmod128by128`** (divisor wider than one word, dividend greater than the divisor)
-    returns floor quotient and remainder -/
+/-- **the estimate branch of `divmod128by128`** (divisor wider than one word, EVERY dividend — also one below
+    the divisor, where the estimate is 0 or 1 —) returns floor quotient and remainder -/
 theorem div128Spec : Div128Spec := by
-  intro u n hh hgt
+  intro u n hh
   obtain ⟨hs, hlo, hhi⟩ := clz_bounds n.hi hh
   have hhi' := clz_bounds' n.hi
   have hult := u.toNat_lt
@@ -493,18 +493,35 @@ theorem div128Spec : Div128Spec := by
   generalize q0 >>> (63 - s) = qh at *
   obtain ⟨b1, b2⟩ := est_bounds u.toNat n.toNat v.toNat (2^(64-s)) (2^(s+1)) hDge hE hvge hvlo hvhi hult
   rw [← hqh] at b1 b2
-  have hq1 : 1 ≤ u.toNat / n.toNat := Nat.div_pos (by omega) hnpos
-  have hqne : qh ≠ 0#64 := fun e => by rw [e, z0] at b1; omega
+  by_cases hqne : qh = 0#64
+  · -- the estimate is 0 (dividend below the divisor): nothing is decremented, the product is 0, no correction
+    have hqz : qh.toNat = 0 := by rw [hqne]; rfl
+    have hq0 : u.toNat / n.toNat = 0 := Nat.le_zero.mp (hqz ▸ b1)
+    have hlt : u.toNat < n.toNat := by
+      rcases Nat.lt_or_ge u.toNat n.toNat with h | h
+      · exact h
+      · have := Nat.div_pos h hnpos; omega
+    rw [if_neg (show ¬ (qh ≠ 0#64) from fun h => h hqne), hqne]
+    have hQ : (U128.mk 0#64 0#64).toNat = 0 := by rw [mk0_toNat, z0]
+    have hmul : (mul (U128.mk 0#64 0#64) n).toNat = 0 := by rw [mul_toNat, hQ, Nat.zero_mul]; rfl
+    have hr : (sub u (mul (U128.mk 0#64 0#64) n)).toNat = u.toNat := by rw [sub_toNat, hmul]; omega
+    rw [if_neg (show ¬ (cmp (sub u (mul (U128.mk 0#64 0#64) n)) n ≥ 0) from
+      fun h => by have := (cmp_ge_zero _ _).mp h; rw [hr] at this; omega)]
+    exact ⟨by rw [hQ, hq0], by rw [hr, Nat.mod_eq_of_lt hlt]⟩
+  have hq1 : 1 ≤ qh.toNat := by
+    have : qh.toNat ≠ 0 := fun e => hqne (BitVec.eq_of_toNat_eq (by simpa using e))
+    omega
   rw [if_pos hqne]
   have hqd : (qh - 1#64).toNat = qh.toNat - 1 := by rw [BitVec.toNat_sub, o1]; have := qh.isLt; omega
   have hQ : (U128.mk 0#64 (qh - 1#64)).toNat = qh.toNat - 1 := by rw [mk0_toNat, hqd]
   generalize U128.mk 0#64 (qh - 1#64) = Q at *
   obtain ⟨hle, hif⟩ := final_corr u.toNat n.toNat (qh.toNat - 1) hnpos (by omega)
+  have hdl := Nat.div_le_self u.toNat n.toNat
+  have hqn : (qh.toNat - 1) * n.toNat < 2^128 := by omega
   have hmul : (mul Q n).toNat = (qh.toNat - 1) * n.toNat := by
-    rw [mul_toNat, hQ, Nat.mod_eq_of_lt (by omega)]
+    rw [mul_toNat, hQ, Nat.mod_eq_of_lt hqn]
   have hr : (sub u (mul Q n)).toNat = u.toNat - (qh.toNat - 1) * n.toNat := by
     rw [sub_toNat, hmul]; omega
-  have hdl := Nat.div_le_self u.toNat n.toNat
   by_cases hc : n.toNat ≤ u.toNat - (qh.toNat - 1) * n.toNat
   · rw [if_pos ((cmp_ge_zero _ _).mpr (by rw [hr]; exact hc))]
     rw [if_pos hc] at hif
